@@ -100,7 +100,7 @@ func startCase() {
 	}
 }
 
-var stackBuf = make([]byte, 1<<16)
+var stackBuf = make([]byte, 4<<20)
 
 // hangs counts deadline expiries in this process.  A correct Pipe never produces one; once a broken one
 // has produced one (after the full 30 s watchdog), the remaining cases use a short deadline so that the run still finishes and
@@ -183,15 +183,25 @@ func (r *runner) auto() string {
 }
 
 func (r *runner) cleanup() {
-	if r.pending != nil {
-		r.p.BreakWithError(errOf(9999))
-		select {
-		case <-r.pending:
-		case <-time.After(deadline(30 * time.Second)):
-			hangs++
+	if r.pending == nil {
+		return
+	}
+	// a break must release a parked reader; settle() tells (without waiting for a deadline) whether the reader
+	// returned or parked again
+	r.p.BreakWithError(errOf(9999))
+	if res := r.settle("x"); r.pending != nil {
+		_ = res
+		hangs++
+		// try harder so that the goroutine does not leak into the following cases
+		r.p.CloseWithError(errOf(9998))
+		r.p.Write(nil)
+		if r.pending != nil {
+			r.settle("x")
 		}
-		r.pending = nil
-		outstanding--
+		if r.pending != nil {
+			r.pending = nil
+			outstanding--
+		}
 	}
 }
 
@@ -695,19 +705,13 @@ func execMulti(op string) string {
 		}
 	}
 	defer func() {
-		if npend > 0 {
-			for i := 0; i < k+1; i++ { // Signal wakes one waiter per call
-				p.BreakWithError(errOf(9999 + i))
-				p.Write(nil)
+		for round := 0; npend > 0 && round < 2*k+2; round++ { // Signal wakes one waiter per call
+			p.BreakWithError(errOf(9999))
+			if round >= k {
+				p.CloseWithError(errOf(9998)) // a break should have been enough
 			}
-			for _, ch := range pend {
-				if ch != nil {
-					select {
-					case <-ch:
-					case <-time.After(deadline(30 * time.Second)):
-						hangs++
-					}
-				}
+			if i, _ := settle(); i < 0 && round >= k {
+				hangs++
 			}
 		}
 	}()
